@@ -91,6 +91,12 @@ CLAIMED = {
         text="JSON, TOML and YAML documents written by writers of my own (never by serde) and two corrupted variants of each are included by the real code; the tagged value (ints and floats kept apart) must equal what CPython json / tomllib / libyaml read from the same bytes, and whatever the strict decoder rejects must be a build error. Text, empty and binary files are included as str / b64 / b64urlsafe and compared with the file text and Python's base64.",
         note="Trusted: the independent decoders. Constructs on which decoders legitimately differ are excluded and counted in the evidence (duplicate keys, ints outside i64, YAML anchors/tags/merge/non-string keys/1.1-only and leading-zero scalars, surrogates, -0, out-of-range floats, TOML dates).",
         design="DESIGN.md section 4, C15"),
+    "C18": dict(
+        engine="cli",
+        technique="runtime monitor: the real CLI run under generated complete environments; artifact decoded and compared with what was passed; planted 128-bit secrets searched in all output of failing runs; shadowing catalogue",
+        text="Random environments (hostile names and values, 1..3 planted random secrets) are the complete environment of real `ucg build` / `ucg --no-strict build` runs: every set variable must read back exactly through out json, an unset one must fail naming it in strict mode and be NULL otherwise, no secret value may appear in any output, `let env` must be rejected and fields/selectors named env must keep meaning the field.",
+        note="Trusted: subprocess env passing; a secret counts as disclosed when its 32 hex digits occur in stdout or stderr.",
+        design="DESIGN.md section 4, C18"),
     "C17": dict(
         engine="probe",
         technique="runtime monitor: span oracle from my layout engine on single-fault programs (primary position inside the faulty statement, VIA inside the caller) + metamorphic line-shift check; eval, build and CLI",
